@@ -506,6 +506,7 @@ def run(ctx: Ctx) -> None:
     ctx.rule('R16.2', 'rows reach the order-sensitive steps in canonical order; bootstrap seeded', floor=6)
     ctx.rule('R16.3', 'fit_status success only for a valid fit inside the data range; fit_found = (status == success)', floor=15)
     ctx.rule('R16.4', 'fit function and its siblings are the documented ansatz with parameters in fit order; fit and bootstrap read one table', floor=11)
+    ctx.rule('R16.5', 'the fit and its beta-resampling bootstrap read n_fail = n_trials - sum(success) and p_est = 1 - mean(success), each row with the code (distance) of its own group whatever the order of the input rows', floor=3)
     ctx.trust('scipy.optimize.curve_fit, numpy median/quantile, pandas sort semantics; sympy (python3-vt)')
     with ctx.part():
         _r161(ctx)
@@ -518,3 +519,15 @@ def run(ctx: Ctx) -> None:
         _r163(ctx)
     with ctx.part():
         _r164(ctx)
+    # the table the fit reads: failure counts and rates as defined for the pooled trials (shared with C15 R15.3)
+    with ctx.part():
+        from .c15 import _frame_formulas, _r151_152
+        sub = Ctx('C16', ctx.model, ctx.tier, ctx.seed)
+        for r_ in ('R15.1', 'R15.2', 'R15.3'):
+            sub.rule(r_, '', 0)
+        _frame_formulas(sub)
+        _r151_152(sub)
+        for o in sub.obs:
+            if o.key.split('|', 1)[1] in ('Analysis.aggregate|n_fail', 'calculate_total_error_rates|estimator',
+                                          'Analysis.aggregate|aligned'):
+                ctx.ob('R16.5', o.site, o.what, o.ok, o.detail, key=o.key.split('|', 1)[1], facts=o.facts)
